@@ -305,9 +305,9 @@ Definition release_all (W : workload) (s : state) (j : nat) : state :=
 Definition start_body (W : workload) (fx : fixes) (s : state) (j : nat) : state :=
   match acquire_l (avail s) (held (jobs s j)) (deps W j) 0 with
   | (av, hd, Some i) =>
-      let s1 := s_avail (setjob s j (w_held (jobs s j) hd)) av in
-      let s2 := check W fx s1 j i in
-      setjob s2 j (w_pc (jobs s2 j) (PExt ALockOutAbort))
+      (* LockError: dependency.check(), then `return JobState.WAITING` leaves `async with job lock`
+         (the coroutine is suspended on the release of the job lock when the step ends) *)
+      check W fx (s_avail (setjob s j (w_pc (w_held (jobs s j) hd) (PExt ALockOutAbort))) av) j i
   | (av, hd, None) =>
       let r := w_held (jobs s j) hd in
       s_avail (setjob s j (w_pc (w_st (w_launches r (S (launches r))) RUNNING) (PExt ALockOutRun))) av
@@ -432,12 +432,13 @@ Fixpoint steps_gen (W : workload) (fx : fixes) (s : state) (ls : list label) : o
 Definition steps W := steps_gen W all_fixed.
 Definition steps_prefix W := steps_gen W no_fix.
 
-(* well-formed workloads: dependencies point to earlier jobs (submit() rejects unsubmitted tasks),
-   tokens exist, and a request never exceeds the total of its token *)
+(* well-formed workloads: dependencies point to earlier jobs (submit() rejects unsubmitted tasks) and
+   tokens exist.  Nothing is assumed about the size of the requests: a job that asks more of a token
+   than its total is refused by the guard of LSubmit (fx5, `fits`) *)
 Definition dep_wf (W : workload) (j : nat) (d : dep) : bool :=
   match d with
   | DJob k => (k <? j)%nat
-  | DTok t c => (t <? length (w_tokens W))%nat && (c <=? total W t)%nat
+  | DTok t c => (t <? length (w_tokens W))%nat
   end.
 Definition wf (W : workload) : bool :=
   forallb (fun j => forallb (dep_wf W j) (deps W j)) (seq 0 (njobs W)).
